@@ -68,18 +68,21 @@ def sym_probability_distribution(deformed):
     rx, ry, rz, p = z3.Reals('r_x r_y r_z p')
     DX = {c: z3.Function('D_' + c, INT, INT) for c in 'XYZ'}     # D_i(P) encoded 0,1,2 = X,Y,Z
 
+    calls = []
+
     def getdef(x, st, a, k):
         i = x.comp_idx[-1]
+        calls.append((i, a, k))
         return D({c: E([(DX[c](i) == j, 'XYZ'[j]) for j in range(3)]) for c in 'XYZ'})
     coords = Obj(None, {}, 'coords')
     code = Obj(None, {'n': n, 'qubit_coordinates': coords}, 'code')
     selfo = Obj(cls, {'_direction': T([rx, ry, rz]), '_deformation_name': E.const('XZZX') if deformed else NONE,
-                      '_deformation_kwargs': D({})}, 'error_model')
-    intr = {'code.get_deformation': getdef, ('index', 'coords'): lambda x, st, b, i: Opaque('loc'),
+                      '_deformation_kwargs': D({'deformation_axis': E.const('z')}) if deformed else D({})}, 'error_model')
+    intr = {'code.get_deformation': getdef, ('index', 'coords'): lambda x, st, b, i: ('coord', i),
             'loop:range': pointwise_range_loop}
     x = X(m, intr)
     st, ret = x.run(f.node and f, [code, p], {}, selfo)
-    return dict(n=n, r=(rx, ry, rz), p=p, DX=DX, ret=ret, st=st, f=f, x=x)
+    return dict(n=n, r=(rx, ry, rz), p=p, DX=DX, ret=ret, st=st, f=f, x=x, calls=calls)
 
 
 def _perm_pre(DX, i):
